@@ -127,6 +127,22 @@ fn gen(rng: &mut Rng, _tier: Tier) -> Value {
   }
 }
 
+/// A reader that returns at most `step` bytes per call.
+struct Dribble<'a> {
+  data: &'a [u8],
+  pos: usize,
+  step: usize,
+}
+
+impl std::io::Read for Dribble<'_> {
+  fn read(&mut self, buf: &mut [u8]) -> std::io::Result<usize> {
+    let n = self.step.min(buf.len()).min(self.data.len() - self.pos);
+    buf[..n].copy_from_slice(&self.data[self.pos..self.pos + n]);
+    self.pos += n;
+    Ok(n)
+  }
+}
+
 fn build(v: &MapVal) -> SourceMap {
   let mut m = SourceMap::new(v.mappings.clone(), v.sources.clone(), v.contents.clone(), v.names.clone());
   m.set_file(v.file.clone());
@@ -292,6 +308,15 @@ fn check_value(v: &MapVal, obs: &mut Obs) {
     ("from_json", SourceMap::from_json(&json).map_err(|e| e.to_string())),
     ("from_slice", SourceMap::from_slice(json.as_bytes()).map_err(|e| e.to_string())),
     ("from_reader", SourceMap::from_reader(json.as_bytes()).map_err(|e| e.to_string())),
+    // readers that hand the document out in pieces (short reads are legal for io::Read)
+    ("from_reader(1 byte per read)", SourceMap::from_reader(Dribble { data: json.as_bytes(), pos: 0, step: 1 }).map_err(|e| e.to_string())),
+    ("from_reader(7 bytes per read)", SourceMap::from_reader(Dribble { data: json.as_bytes(), pos: 0, step: 7 }).map_err(|e| e.to_string())),
+    ("from_reader(two halves chained)", {
+      use std::io::Read;
+      let (a, b) = json.as_bytes().split_at(json.len() / 2);
+      SourceMap::from_reader(a.chain(b)).map_err(|e| e.to_string())
+    }),
+    ("from_reader(small BufReader)", SourceMap::from_reader(std::io::BufReader::with_capacity(16, json.as_bytes())).map_err(|e| e.to_string())),
   ];
   for (name, r) in parsers {
     obs.count("parses", 1);
